@@ -457,9 +457,11 @@ class Recfile(object):
             # for ascii, make sure the data are in native format.  This greatly
             # simplifies the C code.  Convert a copy: the view shares its
             # buffer with the caller's array
-            if _needs_byteswap(dataview):
-                dataview = dataview.copy()
-                to_native_inplace(dataview)
+            # The fields need not all have the same byte order, so convert
+            # field by field (astype to the native version of the dtype)
+            native_dtype = dataview.dtype.newbyteorder("=")
+            if native_dtype != dataview.dtype:
+                dataview = dataview.astype(native_dtype)
 
         self.robj.Write(dataview)
 
